@@ -721,6 +721,91 @@ func isKeyType(t types.Type) bool {
 func Fold(w *load.World, c *core.Collector) {
 	props := []string{"C02"}
 	n := 0
+	foldsIn := map[*ssa.Function]bool{} // top-level methods that contain (or whose literals contain) a fold site
+	topOf := func(f *ssa.Function) *ssa.Function {
+		for f.Parent() != nil {
+			f = f.Parent()
+		}
+		return f
+	}
+	defer func() {
+		// presence: every method of a case-aware wrapper that hands key operands to its inner index folds them
+		np := 0
+		for _, f := range w.Fns {
+			if load.PkgPath(f) != load.Mod+"/shard/index/inverted" || f.Parent() != nil || f.Signature.Recv() == nil {
+				continue
+			}
+			st := ssax.StructOf(f.Signature.Recv().Type())
+			if st == nil {
+				continue
+			}
+			caseAware := false
+			var hasCase func(t types.Type, depth int) bool
+			hasCase = func(t types.Type, depth int) bool {
+				ps := ssax.StructOf(t)
+				if ps == nil || depth > 3 {
+					return false
+				}
+				for j := 0; j < ps.NumFields(); j++ {
+					if ps.Field(j).Name() == "CaseSensitive" || hasCase(ps.Field(j).Type(), depth+1) {
+						return true
+					}
+				}
+				return false
+			}
+			for i := 0; i < st.NumFields(); i++ {
+				if hasCase(st.Field(i).Type(), 0) {
+					caseAware = true
+				}
+			}
+			if !caseAware {
+				continue
+			}
+			// does the method (or a literal of it) call into the inner generic index with key-typed operands?
+			forwards := false
+			var visit func(g *ssa.Function)
+			visit = func(g *ssa.Function) {
+				for _, b := range g.Blocks {
+					for _, in := range b.Instrs {
+						if call, ok := in.(*ssa.Call); ok {
+							if callee := call.Call.StaticCallee(); callee != nil && callee.Origin() != nil && callee.Signature.Recv() != nil && load.PkgPath(callee) == load.Mod+"/shard/index/inverted" {
+								osig := callee.Origin().Signature
+								for i := 0; i < osig.Params().Len(); i++ {
+									t := osig.Params().At(i).Type()
+									if isKeyType(t) {
+										forwards = true
+									}
+									if ch, ok := t.Underlying().(*types.Chan); ok {
+										if nt, ok := ch.Elem().(*types.Named); ok && nt.TypeArgs().Len() > 0 {
+											forwards = true
+										}
+									}
+								}
+							}
+						}
+					}
+				}
+				for _, a := range g.AnonFuncs {
+					visit(a)
+				}
+			}
+			visit(f)
+			if !forwards {
+				continue
+			}
+			np++
+			key := "presence:" + load.FnKey(f)
+			if foldsIn[f] {
+				c.Add("FOLD", key, core.OK, w.Position(f.Pos()), "", props...)
+			} else {
+				c.Add("FOLD", key, core.Violation, w.Position(f.Pos()), "this method of a case-aware index hands key operands to the inner index without folding them on the case-insensitive branch: values that differ only in case are diffed, stored or looked up as different keys", props...)
+			}
+		}
+		c.Count("case_aware_forwarding_methods", np)
+		if np < 4 {
+			c.Add("FOLD", "anchor:case-aware-methods", core.Undecided, "", fmt.Sprintf("found %d methods of case-aware wrappers that forward key operands, expected at least 4", np), props...)
+		}
+	}()
 	for _, f := range w.Fns {
 		if load.PkgPath(f) != load.Mod+"/shard/index/inverted" {
 			continue
@@ -769,6 +854,7 @@ func Fold(w *load.World, c *core.Collector) {
 					continue
 				}
 				n++
+				foldsIn[topOf(f)] = true
 				key := "siblings:" + load.FnKey(f) + "->" + load.FnKey(callee)
 				if all {
 					c.Add("FOLD", key, core.OK, w.At(in), "", props...)
@@ -823,6 +909,7 @@ func Fold(w *load.World, c *core.Collector) {
 				continue
 			}
 			n++
+			foldsIn[topOf(f)] = true
 			key := "siblings:" + load.FnKey(f)
 			var raw []string
 			for _, k := range keyFields {
